@@ -174,6 +174,23 @@ impl Context {
         let path = self.file_path.clone();
         let (ast, module_info, mut parse_errs) = parser::parse_to_expr(src, path);
         // let ast = parser::add_global_context(ast, self.file_path.unwrap_or_default());
+        if !parse_errs.is_empty() {
+            // The tree contains error nodes: collect the type errors as well, but do not
+            // generate MIR (or run macro-stage code) from it.
+            let expr = if ast.has_staging_constructs() {
+                ast.wrap_to_staged_expr()
+            } else {
+                ast
+            };
+            let (_, _, mut type_errs) = mirgen::typecheck_with_module_info(
+                expr,
+                self.get_ext_typeinfos().as_slice(),
+                self.file_path.clone(),
+                module_info,
+            );
+            parse_errs.append(&mut type_errs);
+            return Err(parse_errs);
+        }
         let mir = mirgen::compile_with_module_info(
             ast,
             self.get_ext_typeinfos().as_slice(),
@@ -181,14 +198,7 @@ impl Context {
             self.file_path.clone(),
             module_info,
         );
-        if parse_errs.is_empty() {
-            mir
-        } else {
-            let _ = mir.map_err(|mut e| {
-                parse_errs.append(&mut e);
-            });
-            Err(parse_errs)
-        }
+        mir
     }
     pub fn emit_bytecode(&self, src: &str) -> Result<vm::Program, Vec<Box<dyn ReportableError>>> {
         let mir = self.emit_mir(src)?;
